@@ -239,7 +239,7 @@ def r02_4(ctx):
     b = body(ctx, "pp_run_internal")
     if not b:
         return
-    isx = bool_call_edges(b, lib, "txtpp::core::execute::pp::PpMode::is_execute", True)
+    isx = bool_call_edges(b, lib, ROLE["is_execute"], True)
     for bb, t in calls_to(b, ROLE["write_output"]):
         if not b.in_cycle(bb):
             continue
@@ -286,8 +286,7 @@ def r02_5(ctx):
 
 @rule("C02", "R02.6", floor=2)
 def r02_6(ctx):
-    allowed = ("std::sync::mpsc::Sender<txtpp::core::execute::TaskResult>", "std::sync::Arc<txtpp::fs::shell::Shell>",
-               "txtpp::fs::path::abs_path::AbsPath", "txtpp::core::execute::config::Mode", "bool")
+    allowed = ("std::sync::mpsc::Sender<%s>" % ADT["TaskResult"], "std::sync::Arc<%s>" % ADT["Shell"], ADT["AbsPath"], ADT["Mode"], "bool")
     for sb, sbb, t, cl in spawner_bodies(ctx):
         if cl is None:
             continue
@@ -456,8 +455,7 @@ def r03_5(ctx):
 @rule("C03", "R03.6", floor=4)
 def r03_6(ctx):
     lib = ctx.lib
-    allowed = {ROLE["create_base"], ROLE["share_base"], "txtpp::fs::path::abs_path::AbsPath::new",
-               "<txtpp::fs::path::abs_path::AbsPath as std::clone::Clone>::clone"}
+    allowed = {ROLE["create_base"], ROLE["share_base"], ROLE["abspath_new"], ROLE["abspath_clone"]}
     for b in lib.bodies.values():
         for bb, st in aggregates(b, ADT["AbsPath"]):
             if b.name not in allowed:
@@ -485,14 +483,14 @@ def r03_6(ctx):
         else:
             ctx.violation(["make_abs"], "make_abs can return a path that is not the result of Path::canonicalize", site=ctx.site(ma, oks[0] if oks else 0))
     # AbsPath::new (unit tests only) is not mentioned by non-test code
-    ments = C.all_mentions(lib, lambda ns: "txtpp::fs::path::abs_path::AbsPath::new" in ns)
+    ments = C.all_mentions(lib, lambda ns: ROLE["abspath_new"] in ns)
     if ments:
         b, kind, bb, names, obj = ments[0]
         ctx.violation(["abspath-new-used"], "AbsPath::new (no canonicalisation; for unit tests) is used by non-test code", site=ctx.site(b, bb))
     else:
         ctx.ok("AbsPath::new is not mentioned in non-test code")
     # derived Eq/Hash read the absolute path only
-    for suffix in ("<txtpp::fs::path::abs_path::AbsPath as std::hash::Hash>::hash", "<txtpp::fs::path::abs_path::AbsPath as std::cmp::PartialEq>::eq"):
+    for suffix in (ROLE["abspath_hash"], ROLE["abspath_eq"]):
         b = lib.bodies.get(suffix)
         if not b:
             ctx.anchor_missing(suffix)
